@@ -26,7 +26,14 @@ uid = st.one_of(st.text(UID_CHARS, min_size=0, max_size=64),
                                  '1.2.840.10008.5.1.4.1.1.2']))
 ascii_name = st.text(string.ascii_letters + string.digits + ' _.-', min_size=0, max_size=16)
 blob = st.binary(min_size=0, max_size=40)
-utext = st.text(st.characters(blacklist_categories=('Cs',)), min_size=0, max_size=20)
+_plain_utext = st.text(st.characters(blacklist_categories=('Cs',)), min_size=0, max_size=20)
+# characters that codecs and text handling like to treat specially, at the positions where that matters
+_SPECIAL = ['\ufeff', '\ufffe', '\x00', ' ', '\t', '\n', '\r\n', '\u200b', '\u2028', '\x7f', '\x1b', '\\', '\ufffd', '\U0001F600', 'e\u0301']
+utext = st.one_of(_plain_utext, _plain_utext,
+                  st.tuples(st.sampled_from(_SPECIAL), _plain_utext).map(lambda t: t[0] + t[1]),
+                  st.tuples(_plain_utext, st.sampled_from(_SPECIAL)).map(lambda t: t[0] + t[1]),
+                  st.tuples(_plain_utext, st.sampled_from(_SPECIAL), _plain_utext).map(lambda t: t[0] + t[1] + t[2]),
+                  st.sampled_from(_SPECIAL))
 
 
 BIG_FIELD = [32767, 32768, 40000, 60000]
